@@ -77,6 +77,14 @@ NEEDS = {
  'C10-h': 'double-ended iterators keep a 64-bit mask of yielded nodes indexed by slot number modulo 64 per end: two siblings whose slots differ by a multiple of 64 (arena of >= 66 slots) make a mixed next()/next_back() sequence stop early',
  'C11-h': 'NodeId::from_index0 builds an id with generation 0; used in get_node_id: for a live node in a recycled slot get_node_id returns an id with the right position and stamp 0',
  'C14-h': 'two sites in IndentWriter: an incrementally tracked count of blank ancestor levels that can undercount after returning from a non-last item, and a dropped continuation-line case: a multi-line last child below a last-child chain of depth 3 (six nodes) is printed one column too far left',
+ 'C02-i': 'the loop checks of the four checked inserts share a helper that cuts the ancestor walk with take_while(ancestor >= other), assuming ancestors always sit in lower slots: an ancestor is accepted below its own descendant as soon as a node on the path lives in a lower slot (tree built bottom-up, or a recycled low slot) - parent cycle',
+ 'C03-i': 'detach_from_siblings skips connect_neighbors unless the range has a parent or BOTH outer neighbours: taking the first or last node of a TOP-LEVEL sibling chain away leaves the remaining neighbour with a stale link to it',
+ 'C06-i': 'remove_subtree fast path for a free-standing leaf frees the node and forgets to return: the slot is freed twice, the stamp flips back to live and the free list points at itself (debug: the assertion in as_removed panics on a valid call; release: the id is handed out again)',
+ 'C07-i': 'append_value uses a free_list_is_empty() helper written as first_free == last_free: with exactly ONE free slot it pushes a fresh slot instead of recycling (count() grows although a removed slot is available)',
+ 'C09-i': 'ReverseTraverse tests for the start node only when stepping up to a parent: from a start node with a previous sibling it walks on into the earlier siblings and up to the tree root',
+ 'C12-i': 'checked_insert_after / _before test the removed RECEIVER only after new_sibling.detach(): the refused call (Err(Removed) / panic) has already cut an attached live node out of its tree',
+ 'C13-i': 'clear() rewritten as *self = Self::with_capacity(self.count()): capacity shrinks to the number of slots in use (needs an arena with spare capacity before clear)',
+ 'C17-i': 'with feature std the IndentWriter takes its indent stack from a thread_local cell and puts it back on drop: after a print that was cut short by fmt::Error the left-over levels prefix the next print on the same thread (no_std builds unaffected)',
  'C14-b': 'write_str fast path for fragments arriving mid-line tests ends_with(newline) instead of contains: a later chunk with an interior newline loses guides and alignment',
 }
 rows = {}
